@@ -229,7 +229,7 @@ func TestVerif_C18_quant(t *testing.T) {
 		}
 		return
 	}
-	verifkit.RapidSetup(8000, 120000)
+	verifkit.RapidSetup(10000, 1200000)
 	gen := c18GenQCase()
 	rapid.Check(t, func(rt *rapid.T) {
 		c := gen.Draw(rt, "case")
@@ -354,7 +354,7 @@ func TestVerif_C18_f16(t *testing.T) {
 	}
 	col.Label("exhaustive-representable-patterns", 1<<16)
 
-	verifkit.RapidSetup(20000, 400000)
+	verifkit.RapidSetup(20000, 4000000)
 	rapid.Check(t, func(rt *rapid.T) {
 		n := rapid.IntRange(1, 32).Draw(rt, "n")
 		var c c18HCase
